@@ -18,6 +18,7 @@ MODEL_FILES = ['MaltModel/Conv/Tmpl.lean', 'MaltModel/Conv/Functions.lean', 'Mal
                'MaltModel/Conv/CallTrees.lean', 'MaltModel/Conv/IfExp.lean', 'MaltModel/Conv/Logical.lean',
                'MaltModel/Conv/Variables.lean', 'MaltModel/Conv/NoNative.lean', 'MaltModel/Proofs/C04Traverse.lean',
                'MaltModel/Proofs/C04Passes.lean', 'MaltModel/Proofs/C04Calls.lean', 'MaltModel/Proofs/C04Sound.lean',
+               'MaltModel/Proofs/C04Mono.lean', 'MaltModel/Proofs/C04MonoPasses.lean', 'MaltModel/Conv/LoopTest.lean', 'MaltModel/Sem/Operators.lean',
                'MaltModel/Proofs/C01Exprs.lean', 'MaltModel/Proofs/C01ExprsStmt.lean', 'MaltModel/Proofs/C01ExprsTarget.lean',
                'MaltModel/Sem/Wrappers.lean', 'MaltModel/Sem/WrappersStmt.lean', 'MaltModel/Sem/WrappersTarget.lean', 'MaltModel/Conv/Slices.lean', 'MaltModel/Drv/C04.lean']
 
@@ -78,6 +79,28 @@ def _entity_node(fsrc):
     return t
 
 
+def _count_kinds(sx, acc):
+    """node kinds (= cases of the structural inductions) occurring in a serialised tree"""
+    stack = [sx]
+    while stack:
+        x = stack.pop()
+        if isinstance(x, list):
+            if x and isinstance(x[0], str) and len(x) > 1 and str(x[1]).isdigit():
+                k = x[0]
+                if k == 'Compare':
+                    for op in x[3]:
+                        acc['Compare:' + op] = acc.get('Compare:' + op, 0) + 1
+                elif k == 'UnaryOp':
+                    k = 'UnaryOp:' + x[2]
+                elif k == 'BoolOp':
+                    k = 'BoolOp:' + x[2]
+                elif k in ('Other', 'OtherStmt'):
+                    k = x[2]
+                acc[k] = acc.get(k, 0) + 1
+            stack.extend(x)
+    return acc
+
+
 def _task(arg):
     try:
         return _task_inner(arg)
@@ -115,7 +138,7 @@ def _task_inner(arg):
         eq_on = bool(options.uses(converter.Feature.EQUALITY_OPERATORS))
         bi_on = bool(options.uses(converter.Feature.BUILTIN_FUNCTIONS))
         case = {'cfg': cx.cfg_key(rec_, fs), 'cfg_id': ci, 'dis': [], 'npass': {}, 'off': None, 'nested': None, 'dircalls': None, 'anncalls': None,
-                'error': None, 'dyn': [], 'skip_seen': 0, 'kinds': {}}
+                'error': None, 'dyn': [], 'skip_seen': 0, 'kinds': {}, 'pass_kinds': {}}
         tr = cx.trace(mod.f, options)
         case['skip_seen'] = cx._state['skip_seen']
         if tr.error is not None:
@@ -130,6 +153,7 @@ def _task_inner(arg):
             line = cx.request(r, tr, options, gen_before)
             if line is not None:
                 lines.append(line); meta.append(r)
+                _count_kinds(r.before, case['pass_kinds'].setdefault(cx.MODELLED[r.name], {}))
             gen_before = gen_before + [x[2] for x in r.new_symbols]
         npass = len(lines)
         final_ok = tr.error is None and tr.final_tree is not None
@@ -335,6 +359,65 @@ def operator_contract(run):
     return n
 
 
+class _FakeRec(object):
+    pass
+
+
+def repo_corpus(run, quick):
+    """The real LogicalExpressionTransformer / ConditionalExpressionTransformer run STANDALONE on the functions of /repo
+    (malt + tests: real-world shapes, not executable in isolation) vs the Lean models: -> (kinds per pass, disagreements, counts)."""
+    import copy
+    import c04_exprs as cx
+    from malt.core import converter
+    from malt.pyct import transformer
+    from malt.converters import logical_expressions, conditional_expressions
+    fns = list(progen.repo_functions())
+    if quick and len(fns) > 500:
+        stride = len(fns) // 500
+        fns = fns[run.rng.randrange(stride)::stride]
+    info = transformer.EntityInfo(name='f', source_code='', source_file='', future_features=(), namespace={})
+    lines, meta = [], []
+    kinds = {'logical': {}, 'ifexp': {}}
+    counts = {'logical': 0, 'ifexp': 0, 'errors': 0}
+    for n, fn in enumerate(fns):
+        eq_on = bool(n % 2)
+        opts = converter.ConversionOptions(recursive=True, optional_features=((converter.Feature.EQUALITY_OPERATORS,) if eq_on else None))
+        for op, cls in (('logical', logical_expressions.LogicalExpressionTransformer),
+                        ('ifexp', conditional_expressions.ConditionalExpressionTransformer)):
+            try:
+                node = copy.deepcopy(fn.node)
+                ser = pyast.Ser(node)
+                before = ser.sexp
+                annos = []
+                if op == 'ifexp':
+                    for i, nd in ser.nodes.items():
+                        if isinstance(nd, ast.IfExp):
+                            annos.append([i, 'test_repr', repr(ast.unparse(nd.test).strip())])
+                ctx = transformer.Context(info, None, converter.ProgramContext(opts))
+                out = cls(ctx).visit(node)
+                after = pyast.Ser(out).sexp
+            except Exception:
+                counts['errors'] += 1
+                continue
+            rec = _FakeRec()
+            rec.name = cls.__name__; rec.before = before; rec.after = after; rec.before_annos = annos
+            rec.new_symbols = []; rec.after_annos = []
+            tr = _FakeRec(); tr.error = None; tr.namespace = []
+            lines.append(cx.request(rec, tr, opts, []))
+            meta.append((op, rec, tr, fn))
+            _count_kinds(before, kinds[op])
+    dis = {}
+    for k0 in range(0, len(lines), 400):
+        answers = run.drive(lines[k0:k0 + 400])
+        for (op, rec, tr, fn), a in zip(meta[k0:k0 + 400], answers):
+            counts[op] += 1
+            run.evaluations += 1
+            ok, detail = cx.compare(rec, tr, a)
+            if not ok:
+                dis.setdefault(op, []).append({'function': '%s:%s' % (fn.path, fn.qualname), 'detail': detail[:400]})
+    return kinds, dis, counts
+
+
 def check(run, only_corpus=None):
     import c04_exprs as cx, c04_dyn as dyn
     quick = run.tier == 'quick'
@@ -354,6 +437,7 @@ def check(run, only_corpus=None):
         'Py.Ast covers the node kinds the generators produce; other kinds are serialised as Other and visited generically',
         'dynamic count oracle: CPython executes the instrumented copy like the original (checked per run: same outcome and log)',
     ]
+    run.translate(['Pipeline'])      # Generated/Pipeline.lean: `exprSuffix_extracted` re-checks the pass order of transform_ast
     run.build_and_audit('MaltModel.Props.C04', model_files=[m for m in MODEL_FILES if os.path.exists(os.path.join(common.LEAN, m))],
                         more_props=['MaltModel.Props.C01Exprs'])
     if not run.driver_ok:
@@ -400,6 +484,7 @@ def check(run, only_corpus=None):
                  'by_kind_orig': dict.fromkeys(dyn.KINDS, 0)}
     dyn_bad = []
     ctx_matrix = set()
+    pass_kinds = {}
     kinds = {}
     skip_seen = 0
     load_errors = 0
@@ -416,6 +501,10 @@ def check(run, only_corpus=None):
                 ctx_matrix.add((res['construct'], res['context']))
             for kk, nn in case.get('kinds', {}).items():
                 kinds[kk] = kinds.get(kk, 0) + nn
+            for op_, d_ in case.get('pass_kinds', {}).items():
+                acc_ = pass_kinds.setdefault(op_, {})
+                for kk, nn in d_.items():
+                    acc_[kk] = acc_.get(kk, 0) + nn
             if case['error']:
                 ek = case['error'].split(':')[0]
                 conv_errors[ek] = conv_errors.get(ek, 0) + 1
@@ -483,6 +572,21 @@ def check(run, only_corpus=None):
     run.oblige('assumption:node-kinds-covered', 'correspondence', not unknown,
                'node kinds outside Py.Ast in final trees (serialised generically): %s' % unknown)
     run.cov['final_tree_node_kinds'] = dict(sorted(kinds.items(), key=lambda kv: -kv[1]))
+    # evidence for the structural inductions: how many nodes of each kind (= case of the induction; Compare per operator,
+    # BoolOp/UnaryOp per operator) the modelled passes were fed, per pass, from generated programs and from /repo functions
+    run.cov['induction_cases_generated'] = {op_: dict(sorted(d_.items(), key=lambda kv: -kv[1])) for op_, d_ in pass_kinds.items()}
+    rk, rdis, rn = repo_corpus(run, quick)
+    run.cov['induction_cases_repo'] = {op_: dict(sorted(d_.items(), key=lambda kv: -kv[1])) for op_, d_ in rk.items()}
+    run.cov['repo_functions_compared'] = rn
+    all_kinds = set(known_kinds) | set('Compare:' + o for o in ('Eq', 'NotEq', 'Lt', 'LtE', 'Gt', 'GtE', 'Is', 'IsNot', 'In', 'NotIn')) \
+        | {'BoolOp:And', 'BoolOp:Or', 'UnaryOp:Not', 'UnaryOp:USub'}
+    seen_l = set(pass_kinds.get('logical', {})) | set(rk.get('logical', {}))
+    run.cov['induction_cases_never_exercised(logical)'] = sorted(k for k in all_kinds if k not in seen_l and k not in
+                                                                 ('BoolOp', 'UnaryOp', 'Compare', 'AsyncFunctionDef', 'AsyncFor', 'AsyncWith'))
+    for op_ in ('logical', 'ifexp'):
+        d = rdis.get(op_, [])
+        run.oblige('correspondence:repo-corpus:' + op_, 'correspondence', not d, json.dumps(d[:2])[:1200] if d else
+                   '%d /repo functions' % rn.get(op_, 0))
     run.oblige('assumption:no-skip-processing', 'correspondence', skip_seen == 0, 'SKIP_PROCESSING seen on %d nodes' % skip_seen)
     run.oblige('checker:noNative-on-real-output', 'checker', not off_cases,
                json.dumps(off_cases[:2])[:1500] if off_cases else '%d final trees checked' % checked_final)
